@@ -1,20 +1,24 @@
 (* C13 - Signals.  Only statements, each closed by [exact] of a lemma proved in
    Proofs/SignalProofs.v, with Print Assumptions beneath.
 
-   Model: Model/Signal.v.  [run fx fs beh fuel (init cap) ops] executes the top-level
+   Model: Model/Signal.v.  [run fx fs fr beh fuel (init cap) ops] executes the top-level
    operations [ops] (init/start/start_oneshot/stop/close of handles, delivery of a
    signal by the kernel, uv_run(NOWAIT) of a loop); [beh k] is what the k-th signal
    callback does (any list of the same operations); [cap] is the capacity of the
    self-pipes; [fuel] bounds the rounds of uv__signal_event.  [tr s] is the trace,
-   newest event first.  Two switches name the variant of the code:
+   newest event first.  Three switches name the variant of the code:
      fx = true   the code as it is (since /repo commit 6ba1164: the ONE_SHOT flag is
                  set or cleared by every effective start);
-     fx = false  history: the code before commit 6ba1164 (flag only ever set);
-     fs = false  the code as it is (uv__signal_event stops a ONE_SHOT handle after
-                 every message);
-     fs = true   with notes/C13_fix_oneshot_stale_stop.diff (one-shot stop only after
-                 the callback) - not committed yet.
-   Statements with "forall fx fs" hold for all four combinations.
+     fx = false  history: before commit 6ba1164 (flag only ever set);
+     fs = true   the code as it is (since /repo commit c39ecc3: one-shot stop only
+                 after the callback);
+     fs = false  history: before commit c39ecc3 (a ONE_SHOT handle was stopped after
+                 every message, also a stale one);
+     fr = false  the code as it is (after its callback a ONE_SHOT handle is stopped
+                 whatever it watches by then);
+     fr = true   with notes/C13_fix_oneshot_restart_in_cb.diff (stopped only if it
+                 still watches the signal of the message) - not committed yet.
+   Statements with "forall fx fs fr" hold for all eight combinations.
    Trusted assumption: uv__signal_start, uv__signal_stop and the handler are atomic
    with respect to each other (signals blocked + lock). *)
 From UV Require Import Lib.Base Model.Signal Proofs.SignalProofs.
@@ -24,16 +28,16 @@ From Coq Require Import Sorting.Sorted.
 
 (* S1: the tree is strictly sorted by uv__signal_compare, hence duplicate-free *)
 Theorem C13_tree_sorted_nodup :
-  forall fx fs beh fuel cap ops,
-  let s := run fx fs beh fuel (init cap) ops in
+  forall fx fs fr beh fuel cap ops,
+  let s := run fx fs fr beh fuel (init cap) ops in
   StronglySorted (fun a b => sig_compare (get s a) a (get s b) b = Lt) (tree s) /\ NoDup (tree s).
 Proof. exact tree_sorted_nodup. Qed.
 Print Assumptions C13_tree_sorted_nodup.
 
 (* S2: a handle is in the tree exactly while its signum is not 0 *)
 Theorem C13_tree_iff_started :
-  forall fx fs beh fuel cap ops h,
-  let s := run fx fs beh fuel (init cap) ops in
+  forall fx fs fr beh fuel cap ops h,
+  let s := run fx fs fr beh fuel (init cap) ops in
   In h (tree s) <-> h_signum (get s h) <> 0.
 Proof. exact tree_iff_started. Qed.
 Print Assumptions C13_tree_iff_started.
@@ -41,8 +45,8 @@ Print Assumptions C13_tree_iff_started.
 (* S3: caught_signals - dispatched_signals = messages for the handle in its loop's
    pipe (or already read into the buffer of uv__signal_event) *)
 Theorem C13_caught_minus_dispatched :
-  forall fx fs beh fuel cap ops h,
-  let s := run fx fs beh fuel (init cap) ops in
+  forall fx fs fr beh fuel cap ops h,
+  let s := run fx fs fr beh fuel (init cap) ops in
   h < length (hs s) ->
   h_caught (get s h) = h_dispatched (get s h) + pending s h.
 Proof. exact caught_minus_dispatched. Qed.
@@ -57,26 +61,26 @@ Print Assumptions C13_caught_minus_dispatched.
    handle still watches the signal of the message (it was not stopped before the
    dispatch), none otherwise, and consumes the message. *)
 Theorem C13_every_watcher_once :
-  (forall fx fs beh fuel cap ops sig rh,
-   let s := run fx fs beh fuel (init cap) ops in
+  (forall fx fs fr beh fuel cap ops sig rh,
+   let s := run fx fs fr beh fuel (init cap) ops in
    sig <> 0 -> disp_of s sig = Handler rh ->
    (forall l, length (pipe_of s l) + length (targets s sig) <= Signal.cap s) ->
    forall h, pending (fst (deliver s sig)) h =
              pending s h +
              (if existsb (Nat.eqb h) (filter (fun y => h_signum (get s y) =? sig) (tree s)) then 1 else 0))
   /\
-  (forall fx fs beh s h sig r h',
-   count_cb h' (tr (process_msg fx fs beh s (h, sig) r)) =
+  (forall fx fs fr beh s h sig r h',
+   count_cb h' (tr (process_msg fx fs fr beh s (h, sig) r)) =
    count_cb h' (tr s) + (if (sig =? h_signum (get s h)) && (h =? h') then 1 else 0) /\
-   batch (process_msg fx fs beh s (h, sig) r) = r).
+   batch (process_msg fx fs fr beh s (h, sig) r) = r).
 Proof. split; [exact deliver_one_message_each | exact dispatch_one_callback]. Qed.
 Print Assumptions C13_every_watcher_once.
 
 (* a callback is made only on a handle that the API-level observer knows to be watching
    exactly that signal *)
 Theorem C13_callback_matches_watch :
-  forall fx fs beh fuel cap ops t2 t0 h sig,
-  tr (run fx fs beh fuel (init cap) ops) = t2 ++ ECb h sig :: t0 ->
+  forall fx fs fr beh fuel cap ops t2 t0 h sig,
+  tr (run fx fs fr beh fuel (init cap) ops) = t2 ++ ECb h sig :: t0 ->
   cb_allowed (mode_of t0 h) sig = true.
 Proof. exact callback_matches_watch. Qed.
 Print Assumptions C13_callback_matches_watch.
@@ -86,8 +90,8 @@ Print Assumptions C13_callback_matches_watch.
 (* after uv_signal_stop()/uv_close() has returned ([EOp] is logged at return) the handle
    gets no callback until the program starts it again *)
 Theorem C13_none_after_stop :
-  forall fx fs beh fuel cap ops t2 t1 t0 h sig o r,
-  tr (run fx fs beh fuel (init cap) ops) = t2 ++ ECb h sig :: t1 ++ EOp o r :: t0 ->
+  forall fx fs fr beh fuel cap ops t2 t1 t0 h sig o r,
+  tr (run fx fs fr beh fuel (init cap) ops) = t2 ++ ECb h sig :: t1 ++ EOp o r :: t0 ->
   o = OStop h \/ o = OClose h ->
   (forall e, In e t1 -> ~ is_start_of h e) ->
   False.
@@ -97,8 +101,8 @@ Print Assumptions C13_none_after_stop.
 (* close_cb runs only when no signal caught for the handle is left in a pipe or buffer;
    the handle is then closing, stopped and out of the tree *)
 Theorem C13_close_cb_after_dispatch :
-  forall fx fs beh fuel cap ops h,
-  let s := run fx fs beh fuel (init cap) ops in
+  forall fx fs fr beh fuel cap ops h,
+  let s := run fx fs fr beh fuel (init cap) ops in
   h_closed (get s h) = true ->
   pending s h = 0 /\ h_closing (get s h) = true /\ h_signum (get s h) = 0 /\ ~ In h (tree s).
 Proof. exact closed_nothing_pending. Qed.
@@ -111,16 +115,16 @@ Print Assumptions C13_close_cb_after_dispatch.
    stopped.  (That it gets the callback at all is C13_every_watcher_once; the cases where
    it gets none although a signal was delivered are C13_oneshot_stopped_without_callback.) *)
 Theorem C13_oneshot_exactly_one :
-  (forall fx fs beh fuel cap ops seg t0 h sig,
-   tr (run fx fs beh fuel (init cap) ops) = seg ++ EOp (OStartOneshot h sig) 0%Z :: t0 ->
+  (forall fx fs fr beh fuel cap ops seg t0 h sig,
+   tr (run fx fs fr beh fuel (init cap) ops) = seg ++ EOp (OStartOneshot h sig) 0%Z :: t0 ->
    sig <> 0 -> mode_of t0 h = MIdle ->
    (forall e, In e seg -> ~ is_api_on h e) ->
    count_cb h seg <= 1)
   /\
-  (forall fx fs beh fuel cap ops seg t0 h sg k,
-   let s := run fx fs beh fuel (init cap) ops in
+  (forall fx fs fr beh fuel cap ops seg t0 h sg,
+   let s := run fx fs fr beh fuel (init cap) ops in
    tr s = seg ++ ECbEnd h :: t0 ->
-   mode_of t0 h = MOne sg k ->
+   mode_of t0 h = MOne sg true ->
    (forall e, In e seg -> ~ is_start_of h e) ->
    h_signum (get s h) = 0 /\ h_active (get s h) = false).
 Proof. split; [exact oneshot_at_most_one | exact oneshot_then_stopped]. Qed.
@@ -128,63 +132,119 @@ Print Assumptions C13_oneshot_exactly_one.
 
 (* whenever the observer's view says "stopped" the handle really is (uv_is_active = 0) *)
 Theorem C13_idle_means_stopped :
-  forall fx fs beh fuel cap ops h,
-  let s := run fx fs beh fuel (init cap) ops in
+  forall fx fs fr beh fuel cap ops h,
+  let s := run fx fs fr beh fuel (init cap) ops in
   mode_of (tr s) h = MIdle -> h_signum (get s h) = 0 /\ h_active (get s h) = false.
 Proof. exact idle_means_stopped. Qed.
 Print Assumptions C13_idle_means_stopped.
 
-(* finding, the code as it is (fs = false): a one-shot handle restarted on another signal while
-   an earlier signal is still in the pipe is stopped by that stale message without any callback *)
-Theorem C13_oneshot_stopped_without_callback :
-  forall fx,
-  let s := run fx false (fun _ => []) 8 (init 16)
-             [OInit 0; OStartOneshot 0 10; ORaise 10; OStartOneshot 0 12; ORun 0] in
-  h_active (get s 0) = false /\ count_cb 0 (tr s) = 0 /\ disp_of s 12 = Default.
-Proof. exact oneshot_stopped_without_callback. Qed.
-Print Assumptions C13_oneshot_stopped_without_callback.
-
-(* full statement ([oneshot_live_statement fx fs]): a handle started one-shot that has not had
+(* Full statement ([oneshot_live_statement fx fs fr]): a handle started one-shot that has not had
    its callback yet is never found stopped - no snapshot (uv_is_active after an operation, at
-   the entry of a callback, after a run) shows it inactive.  Together with
+   the entry of a callback, after a run) shows it inactive - for every program that does not
+   re-arm a handle one-shot on signal S from inside that handle's own callback for S
+   ([alias_ok (tr s) = true]; see C13_oneshot_rearm_same_signal_in_cb).  Together with
    C13_callback_matches_watch (the callback carries the signal of the last start),
    C13_oneshot_exactly_one (at most one, then stopped) and C13_every_watcher_once this is
-   "exactly one callback, for the signal it was last started on".
-   Refuted on the code as it is: *)
-Theorem C13_oneshot_stale_stop_refuted : forall fx, ~ oneshot_live_statement fx false.
-Proof. exact oneshot_stale_stop_refuted. Qed.
-Print Assumptions C13_oneshot_stale_stop_refuted.
+   "exactly one callback, for the signal it was last started on". *)
 
-(* ... and proved for the repaired variant (fs = true), for every operation sequence *)
-Theorem C13_oneshot_live_until_callback : forall fx, oneshot_live_statement fx true.
+(* the code as it is (fs = true, fr = false): refuted - a handle that its own one-shot callback
+   restarts one-shot on another signal is stopped when that callback returns *)
+Theorem C13_oneshot_restart_in_cb_refuted : forall fx fs, ~ oneshot_live_statement fx fs false.
+Proof. exact oneshot_restart_in_cb_refuted. Qed.
+Print Assumptions C13_oneshot_restart_in_cb_refuted.
+
+Theorem C13_oneshot_restart_in_cb_stopped :
+  forall fx fs,
+  let s := run fx fs false restart_in_cb_beh 8 (init 16) [OInit 0; OStartOneshot 0 10; ORaise 10; ORun 0] in
+  h_active (get s 0) = false /\ count_cb 0 (tr s) = 1 /\ disp_of s 12 = Default.
+Proof. exact oneshot_restart_in_cb_stopped. Qed.
+Print Assumptions C13_oneshot_restart_in_cb_stopped.
+
+(* with notes/C13_fix_oneshot_restart_in_cb.diff (fs = true, fr = true): proved, for every
+   operation sequence and every callback behaviour *)
+Theorem C13_oneshot_live_until_callback : forall fx, oneshot_live_statement fx true true.
 Proof. exact oneshot_live_until_callback. Qed.
 Print Assumptions C13_oneshot_live_until_callback.
 
-(* repaired variant: a message for a signal the handle does not watch (any more) changes
-   nothing but dispatched_signals *)
+(* fr = true: a handle that its callback has started on another signal keeps exactly what that
+   start gave it (C13_restart_fresh: like a fresh handle) when the callback returns *)
+Theorem C13_restart_in_callback_kept :
+  forall fx fs beh s h sig r,
+  sig = h_signum (get s h) ->
+  let s1 := script fx (cb_enter s h sig) (beh (cbcount s)) in
+  h_signum (get s1 h) <> sig ->
+  let s' := process_msg fx fs true beh s (h, sig) r in
+  (forall x, h_signum (get s' x) = h_signum (get s1 x) /\ h_oneshot (get s' x) = h_oneshot (get s1 x) /\
+             h_active (get s' x) = h_active (get s1 x)) /\
+  tree s' = tree s1 /\ disp_of s' = disp_of s1.
+Proof. exact restart_in_callback_kept. Qed.
+Print Assumptions C13_restart_in_callback_kept.
+
+(* fr = true, the witness run: restarted one-shot on SIGUSR2 inside the SIGUSR1 callback, the handle
+   stays active and fresh, then gets exactly one callback for SIGUSR2 and is stopped *)
+Theorem C13_oneshot_restart_in_cb_fixed_behaviour :
+  forall fx fs,
+  let ops := [OInit 0; OStartOneshot 0 10; ORaise 10; ORun 0] in
+  let s := run fx fs true restart_in_cb_beh 8 (init 16) ops in
+  let s2 := run fx fs true restart_in_cb_beh 8 (init 16) (ops ++ [ORaise 12; ORun 0; ORaise 12]) in
+  (h_active (get s 0) = true /\ h_signum (get s 0) = 12 /\ count_cb 0 (tr s) = 1 /\
+   disp_of s 12 = Handler true /\ fresh_like (get s 0) 12 true) /\
+  (count_cb 0 (tr s2) = 2 /\ In (ECb 0 12) (tr s2) /\ h_active (get s2 0) = false /\
+   disp_of s2 12 = Default).
+Proof. exact oneshot_restart_in_cb_fixed_behaviour. Qed.
+Print Assumptions C13_oneshot_restart_in_cb_fixed_behaviour.
+
+(* every variant: re-arming one-shot on the SAME signal from inside the callback - by the short
+   circuit start ([short = true], a no-op: the handle is still in its first watch) or by
+   stop + start ([short = false], which the code cannot tell from the first watch) - leaves the
+   handle stopped when the callback returns; the second form is what [alias_ok] excludes *)
+Theorem C13_oneshot_rearm_same_signal_in_cb :
+  forall fx fs fr (short : bool),
+  let beh := fun k => match k with
+                      | 0 => if short then [OStartOneshot 0 10] else [OStop 0; OStartOneshot 0 10]
+                      | _ => [] end in
+  let s := run fx fs fr beh 8 (init 16) [OInit 0; OStartOneshot 0 10; ORaise 10; ORun 0] in
+  h_active (get s 0) = false /\ count_cb 0 (tr s) = 1 /\ disp_of s 10 = Default /\
+  alias_ok (tr s) = short.
+Proof. exact oneshot_rearm_same_signal_in_cb. Qed.
+Print Assumptions C13_oneshot_rearm_same_signal_in_cb.
+
+(* since commit c39ecc3 (fs = true): a message for a signal the handle does not watch (any more)
+   changes nothing but dispatched_signals *)
 Theorem C13_stale_message_keeps_handle :
-  forall fx beh s h sig r,
+  forall fx fr beh s h sig r,
   sig <> h_signum (get s h) ->
-  let s' := process_msg fx true beh s (h, sig) r in
+  let s' := process_msg fx true fr beh s (h, sig) r in
   (forall x, h_signum (get s' x) = h_signum (get s x) /\ h_oneshot (get s' x) = h_oneshot (get s x) /\
              h_active (get s' x) = h_active (get s x)) /\
   tree s' = tree s /\ disp_of s' = disp_of s /\ tr s' = tr s.
 Proof. exact stale_message_keeps_handle. Qed.
 Print Assumptions C13_stale_message_keeps_handle.
 
-(* repaired variant, the witness run of the finding: the handle keeps watching SIGUSR2, then gets
-   exactly one callback, for SIGUSR2, and is stopped *)
 Theorem C13_oneshot_stale_stop_fixed_behaviour :
-  forall fx,
+  forall fx fr,
   let ops := [OInit 0; OStartOneshot 0 10; ORaise 10; OStartOneshot 0 12; ORun 0] in
-  let s := run fx true (fun _ => []) 8 (init 16) ops in
-  let s2 := run fx true (fun _ => []) 8 (init 16) (ops ++ [ORaise 12; ORun 0; ORaise 12]) in
+  let s := run fx true fr (fun _ => []) 8 (init 16) ops in
+  let s2 := run fx true fr (fun _ => []) 8 (init 16) (ops ++ [ORaise 12; ORun 0; ORaise 12]) in
   (h_active (get s 0) = true /\ h_signum (get s 0) = 12 /\ count_cb 0 (tr s) = 0 /\
    disp_of s 12 = Handler true) /\
   (count_cb 0 (tr s2) = 1 /\ In (ECb 0 12) (tr s2) /\ h_active (get s2 0) = false /\
    disp_of s2 12 = Default).
 Proof. exact oneshot_stale_stop_fixed_behaviour. Qed.
 Print Assumptions C13_oneshot_stale_stop_fixed_behaviour.
+
+(* HISTORY (fs = false, before commit c39ecc3): a stale message stopped the handle *)
+Theorem C13_oneshot_stale_stop_refuted : forall fx fr, ~ oneshot_live_statement fx false fr.
+Proof. exact oneshot_stale_stop_refuted. Qed.
+Print Assumptions C13_oneshot_stale_stop_refuted.
+
+Theorem C13_oneshot_stopped_without_callback :
+  forall fx,
+  let s := run fx false false (fun _ => []) 8 (init 16)
+             [OInit 0; OStartOneshot 0 10; ORaise 10; OStartOneshot 0 12; ORun 0] in
+  h_active (get s 0) = false /\ count_cb 0 (tr s) = 0 /\ disp_of s 12 = Default.
+Proof. exact oneshot_stopped_without_callback. Qed.
+Print Assumptions C13_oneshot_stopped_without_callback.
 
 (* ---- restart ---- *)
 
@@ -207,10 +267,10 @@ Theorem C13_restart_fresh :
 Proof. exact restart_fresh_fixed. Qed.
 Print Assumptions C13_restart_fresh.
 
-(* the proviso is needed ([restart_fresh_statement fx fs] = the clause without it, over reachable
+(* the proviso is needed ([restart_fresh_statement fx fs fr] = the clause without it, over reachable
    states): a signal caught before stop + start is still delivered (DESIGN section 3, item 14);
    all variants *)
-Theorem C13_stale_signal_refuted : forall fx fs, ~ restart_fresh_statement fx fs.
+Theorem C13_stale_signal_refuted : forall fx fs fr, ~ restart_fresh_statement fx fs fr.
 Proof. exact stale_signal_refuted. Qed.
 Print Assumptions C13_stale_signal_refuted.
 
@@ -230,7 +290,7 @@ Print Assumptions C13_restart_fresh_partial.
 
 (* the witness run of DESIGN item 3 on the code as it is: persistent restart keeps watching *)
 Theorem C13_oneshot_flag_fixed_behaviour :
-  let s := run true false (fun _ => []) 8 (init 16)
+  let s := run true false false (fun _ => []) 8 (init 16)
              (sticky_ops ++ [OStart 0 10; ORaise 10; ORun 0]) in
   h_active (get s 0) = true /\ disp_of s 10 = Handler false /\ h_oneshot (get s 0) = false.
 Proof. exact oneshot_flag_fixed_behaviour. Qed.
@@ -239,12 +299,12 @@ Print Assumptions C13_oneshot_flag_fixed_behaviour.
 (* HISTORY (fx = false, the code before commit 6ba1164): UV_SIGNAL_ONE_SHOT was never cleared
    (DESIGN section 3, item 3), so the clause failed even with nothing pending; reverting the
    fix makes the correspondence check fail again *)
-Theorem C13_oneshot_flag_sticks_refuted : forall fs, ~ restart_fresh_statement false fs.
+Theorem C13_oneshot_flag_sticks_refuted : forall fs fr, ~ restart_fresh_statement false fs fr.
 Proof. exact oneshot_flag_sticks_refuted. Qed.
 Print Assumptions C13_oneshot_flag_sticks_refuted.
 
 Theorem C13_oneshot_flag_sticks_behaviour :
-  let s := run false false (fun _ => []) 8 (init 16)
+  let s := run false false false (fun _ => []) 8 (init 16)
              (sticky_ops ++ [OStart 0 10; ORaise 10; ORun 0]) in
   h_active (get s 0) = false /\ disp_of s 10 = Default /\
   count_cb 0 (tr s) = 2 /\ mode_of (tr s) 0 = MIdle.
@@ -256,7 +316,7 @@ Print Assumptions C13_oneshot_flag_sticks_behaviour.
 (* full statement ([disposition_iff_watched_statement]): libuv's handler is installed iff some
    handle watches the signal.  Refuted in all variants by the SA_RESETHAND window
    (DESIGN section 3, item 13): one-shot A catches, one-shot B starts before the dispatch. *)
-Theorem C13_resethand_race_refuted : forall fx fs, ~ disposition_iff_watched_statement fx fs.
+Theorem C13_resethand_race_refuted : forall fx fs fr, ~ disposition_iff_watched_statement fx fs fr.
 Proof. exact resethand_race_refuted. Qed.
 Print Assumptions C13_resethand_race_refuted.
 
@@ -266,9 +326,9 @@ Print Assumptions C13_resethand_race_refuted.
    and, for runs in which no handle was ever started on a signal that had a
    caught-but-undispatched one-shot watcher ([race s = false]): a watcher -> handler. *)
 Theorem C13_disposition_partial :
-  forall fx fs beh fuel cap ops sig,
+  forall fx fs fr beh fuel cap ops sig,
   sig <> 0 ->
-  let s := run fx fs beh fuel (init cap) ops in
+  let s := run fx fs fr beh fuel (init cap) ops in
   ((forall h, ~ entry s sig h) -> disp_of s sig = Default) /\
   (forall h, entry s sig h -> h_oneshot (get s h) = false -> disp_of s sig = Handler false) /\
   (is_handler (disp_of s sig) = true -> exists h, entry s sig h) /\
@@ -279,7 +339,7 @@ Print Assumptions C13_disposition_partial.
 (* ---- the hypotheses are satisfiable: a reachable, non-trivial state ---- *)
 Example C13_example_run :
   let beh := fun k => match k with 0 => [ORaise 12; OStop 1] | _ => [] end in
-  let s := run true false beh 8 (init 16)
+  let s := run true true false beh 8 (init 16)
              [OInit 0; OInit 0; OInit 1; OStart 0 10; OStartOneshot 1 10; OStart 2 12;
               ORaise 10; ORaise 10; ORun 0; ORaise 12] in
   count_cb 0 (tr s) = 2 /\ count_cb 1 (tr s) = 0 /\ tree s = [0; 2] /\
@@ -288,7 +348,7 @@ Example C13_example_run :
 Proof. vm_compute. repeat split; auto; intros [A B]; discriminate. Qed.
 
 Example C13_example_oneshot_session :
-  let s := run true false (fun _ => []) 8 (init 16) [OInit 0; OStartOneshot 0 10; ORaise 10; ORun 0] in
+  let s := run true true false (fun _ => []) 8 (init 16) [OInit 0; OStartOneshot 0 10; ORaise 10; ORun 0] in
   exists seg t0, tr s = seg ++ EOp (OStartOneshot 0 10) 0%Z :: t0 /\ mode_of t0 0 = MIdle /\
                  count_cb 0 seg = 1 /\ h_active (get s 0) = false.
 Proof.
